@@ -1,4 +1,4 @@
-//go:build pC03 || pC16 || pall
+//go:build pC03 || pC15 || pC16 || pall
 
 package main
 
